@@ -4,7 +4,7 @@
 (* body modes, every interleaving of Deliver(1..3) with the server steps.                                  *)
 EXTENDS H1Server
 CONSTANTS MaxReqs,
-          Configs    \* set of <<tracing, index of the failing write (0: none), peer closes inside the last request>>
+          Configs    \* set of <<tracing, index of the failing write (0: none), peer closes inside the last request, ContinueHandler refuses, keep-alive disabled>>
 
 Shapes == {[hl |-> 2, bl |-> b, expect100 |-> e, close |-> c, hclose |-> hc, bad |-> bd, big |-> bg] :
               b \in {0, 3}, e \in BOOLEAN, c \in BOOLEAN, hc \in BOOLEAN, bd \in BOOLEAN, bg \in BOOLEAN}
@@ -14,9 +14,9 @@ CutLast(rs, cut) == IF cut /\ rs[Len(rs)].bodyLen > 0 THEN [rs EXCEPT ![Len(rs)]
 Sane == {s \in Shapes : (s.expect100 => s.bl > 0) /\ (s.big => s.bl > 0) /\ ~(s.bad /\ s.big) /\ ~(s.bad /\ s.expect100)
                          /\ ~(s.hclose /\ (s.close \/ s.bad \/ s.big \/ s.expect100))}
 
-QuickConfigs == {<<FALSE, 0, FALSE, FALSE>>, <<TRUE, 1, TRUE, FALSE>>, <<FALSE, 0, FALSE, TRUE>>}
-AllConfigs == {<<tr, wf, cut, dn>> : tr \in BOOLEAN, wf \in 0 .. 2, cut \in BOOLEAN, dn \in BOOLEAN}
-PlainConfig == {<<FALSE, 0, FALSE, FALSE>>}
+QuickConfigs == {<<FALSE, 0, FALSE, FALSE, FALSE>>, <<TRUE, 1, TRUE, FALSE, FALSE>>, <<FALSE, 0, FALSE, TRUE, FALSE>>, <<FALSE, 0, FALSE, FALSE, TRUE>>}
+AllConfigs == {<<tr, wf, cut, dn, nk>> : tr \in BOOLEAN, wf \in 0 .. 2, cut \in BOOLEAN, dn \in BOOLEAN, nk \in BOOLEAN}
+PlainConfig == {<<FALSE, 0, FALSE, FALSE, FALSE>>}
 
 RECURSIVE Layout(_, _)
 Layout(ss, at) == IF ss = << >> THEN << >>
@@ -30,6 +30,6 @@ SeqsUpTo(S, n) == IF n = 0 THEN {<< >>}
                   ELSE LET P == SeqsUpTo(S, n - 1) IN P \cup {Append(p, s) : p \in {q \in P : Len(q) = n - 1}, s \in S}
 
 MCInit == \E ss \in SeqsUpTo(Sane, MaxReqs) \ {<< >>}, st \in BOOLEAN, c \in Configs :
-             InitWith(CutLast(Layout(ss, 0), c[3]), [streaming |-> st, idle |-> "inloop", trace |-> c[1], wfail |-> c[2], deny |-> c[4]])
+             InitWith(CutLast(Layout(ss, 0), c[3]), [streaming |-> st, idle |-> "inloop", trace |-> c[1], wfail |-> c[2], deny |-> c[4], nokeep |-> c[5]])
 MCSpec == MCInit /\ [][Next]_vars
 =============================================================================
